@@ -1,5 +1,5 @@
-(* crates/apollo-parser/src/limit.rs : LimitTracker.  `p_current`, `high`, `limit` are usize in the code;
-   here N, with the one operation that can go below zero (`decrement`) returning an poutcome. *)
+(* crates/apollo-parser/src/limit.rs : LimitTracker.  `current`, `high`, `limit` are usize in the code;
+   here N, with the one operation that can go below zero (`decrement`) returning an outcome. *)
 From ApolloVerif Require Import Base.Chars Parse.Outcome.
 
 Record ptracker := { ptr_current : N; ptr_high : N; ptr_limit : N }.
@@ -12,7 +12,7 @@ Definition ptracker_decrement (t : ptracker) : poutcome ptracker :=
   if ptr_current t =? 0 then PPanic PnRecUnderflow
   else POk {| ptr_current := ptr_current t - 1; ptr_high := ptr_high t; ptr_limit := ptr_limit t |}.
 
-(* LimitTracker::check_and_increment : returns (reached, ptracker) *)
+(* LimitTracker::check_and_increment : returns (reached, tracker) *)
 Definition ptracker_check_and_increment (t : ptracker) : poutcome (bool * ptracker) :=
   let p_current := ptr_current t + 1 in
   let high := if ptr_high t <? p_current then p_current else ptr_high t in
